@@ -366,20 +366,39 @@ def oracle_c07(uri, out):
 C05_COLS = ["DataType", "ValueRank", "ArrayDimensions", "AccessLevel", "UserAccessLevel", "IsAbstract", "Symmetric", "ParentNodeId", "MethodDeclarationId", "EventNotifier",
             "Historizing", "MinimumSamplingInterval", "WriteMask", "SymbolicName"]
 STRUCTURAL_CAUSES = {"empty-namespace", "namespace-without-base-use", "quote-in-attribute", "raw-nodeid-attribute", "uri-unescaped"}
+C05_INFO = dict(skipped=[], empty_written=[])
+def attribute_c05(sig, causes):
+    """which recorded findings may absorb a failure with this signature (a finding absorbs only what it explains)"""
+    if sig == "C05/models": return causes & {"model-version-defaulted"}
+    if sig == "C05/write-raises-empty": return {"empty-namespace"}
+    cs = causes & STRUCTURAL_CAUSES
+    # a namespace without nodes whose write raised was left out of the round trip: it explains its own absence and nothing else
+    if C05_INFO["skipped"] and not C05_INFO["empty_written"] and sig != "C05/namespaces": cs = cs - {"empty-namespace"}
+    return cs
+
 def oracle_c05(work, G, tables, g, base_file):
     """write every non-base namespace, parse the written files with the untouched base file, compare the graphs at URI level"""
     files = [base_file]
+    C05_INFO["skipped"] = []; C05_INFO["empty_written"] = []
+    early = []
     for i, uri in enumerate(u for u in G.namespaces[1:] if u != "None"):
         out = impl_write(copy.deepcopy(G), uri, True)
-        if out[0] != "ok": return [("C05/write-raises", "%s: %s: %s" % (uri, out[1], out[2][:100]))]
+        empty = not (G.nodes["ns"] == G.namespaces.index(uri)).any()
+        if out[0] != "ok":
+            if empty:
+                # nothing to write and nothing lost: the recorded finding 'empty-namespace'; the round trip goes on with the other namespaces
+                C05_INFO["skipped"].append(uri); early.append(("C05/write-raises-empty", "%s: %s: %s" % (uri, out[1], out[2][:100]))); continue
+            return early + [("C05/write-raises", "%s: %s: %s" % (uri, out[1], out[2][:100]))]
+        if empty: C05_INFO["empty_written"].append(uri)
         files.append(("w%02d.xml" % i, out[1]))
     paths = graphprops.write_files(work, files)
     st, G2 = graphprops.build(paths)
-    if G2 is None: return [("C05/reparse-raises", "%s: %s" % (st[1], st[2][:150]))]
+    if G2 is None: return early + [("C05/reparse-raises", "%s: %s" % (st[1], st[2][:150]))]
     t2 = graph_tables(G2)
     n1, r1 = graph_uri_level(tables); n2, r2 = graph_uri_level(t2)
-    fails = []
-    if set(G.namespaces) - {"None"} != set(G2.namespaces): fails.append(("C05/namespaces", "%r vs %r" % (G.namespaces, G2.namespaces)))
+    fails = early
+    if set(G.namespaces) - {"None"} != set(G2.namespaces) | set(C05_INFO["skipped"]): fails.append(("C05/namespaces", "%r vs %r" % (G.namespaces, G2.namespaces)))
+    elif C05_INFO["skipped"] and set(G.namespaces) - {"None"} != set(G2.namespaces): fails.append(("C05/write-raises-empty", "namespaces without nodes are not in the re-parsed graph: %r" % (C05_INFO["skipped"],)))
     if set(n1) != set(n2): fails.append(("C05/node-set", "lost %r, new %r" % (sorted(set(n1) - set(n2))[:3], sorted(set(n2) - set(n1))[:3])))
     for k in set(n1) & set(n2):
         a, b = n1[k][0], n2[k][0]
@@ -417,6 +436,9 @@ def run(ctx, prop):
             vseed = rng.randrange(2 ** 31)
             # how the graph is held: as parsed for the wide shape (it depends on the order of the node table); re-labelled and pruned tables at fixed case numbers; random otherwise
             vkinds = ["as-parsed"] if shape == "wide" else {4: ["relabelled"], 9: ["pruned"], 11: ["permuted"]}.get(ci % 14)
+            # C05 is about graphs built from documents and re-parses the written files with the UNTOUCHED base file: a graph from which a namespace was
+            # pruned is not such a graph (the base file may declare references to the pruned nodes), so the round trip uses the other variants only
+            if prop == "C05": vkinds = ["permuted"] if vkinds == ["pruned"] else (vkinds or ["as-parsed", "as-parsed", "permuted", "relabelled"])
             variant, G = graph_variant(G, random.Random(vseed), *([vkinds] if vkinds else []))
             tables = graph_tables(G)
             outs = correspondence(ctx, prop, rng, work, reqs, meta, G, tables, g, ci, inc_choices=(True, False) if prop != "C05" else (True,))
@@ -436,7 +458,7 @@ def run(ctx, prop):
                         if uri in G.namespaces: causes |= write_causes(G, tables, uri, outs.get((uri, True), ["ok", ""]))
                     for sig, detail in oracle_c05(work, G, tables, g, base[0]):
                         # a recorded defect absorbs only the kind of failure it explains: the defaulted version shows in the models and nowhere else
-                        cs = causes & ({"model-version-defaulted"} if sig == "C05/models" else STRUCTURAL_CAUSES)
+                        cs = attribute_c05(sig, causes)
                         ctx.fail(("C05/known:" + "+".join(sorted(cs))) if cs else sig, dict(kind="roundtrip", files=files, vseed=vseed, vkinds=vkinds), sig + ": " + detail)
                     # the same round trip executed INSIDE the model (write_text for every namespace, then parse_text_files on those texts and the
                     # untouched base document) against the implementation's write-then-parse_xml_files, both reduced to (URI, identifier) level
@@ -708,7 +730,7 @@ def case_replay(case, prop):
             causes = write_causes(G, tables, uri, out, inc) - {"model-version-defaulted"}
             fl = oracle_c06(tables, uri, inc, out) if prop == "C06" else oracle_c07(uri, out)
         def attributed(sig):
-            cs = causes & ({"model-version-defaulted"} if sig == "C05/models" else STRUCTURAL_CAUSES) if case["kind"] == "roundtrip" else causes
+            cs = attribute_c05(sig, causes) if case["kind"] == "roundtrip" else causes
             return ("%s/known:" % prop + "+".join(sorted(cs))) if cs else sig
         return [(attributed(sig), sig + ": " + detail) for sig, detail in fl]
     finally:
@@ -728,7 +750,7 @@ def write_replay(case, prop):
         elif prop == "C07": fl = oracle_c07(uri, out); causes -= {"model-version-defaulted"}
         else: fl = oracle_c05(work, G, tables, None, files[0])
         def attributed(sig):
-            cs = causes & ({"model-version-defaulted"} if sig == "C05/models" else STRUCTURAL_CAUSES) if case["kind"] == "roundtrip" else causes
+            cs = attribute_c05(sig, causes) if case["kind"] == "roundtrip" else causes
             return ("%s/known:" % prop + "+".join(sorted(cs))) if cs else sig
         return [(attributed(sig), sig + ": " + detail) for sig, detail in fl]
     finally:
